@@ -67,7 +67,18 @@ var CustomC = map[string]uint64{
 	"MAX_DEPOSIT_REQUESTS_PER_PAYLOAD": 5, "MAX_WITHDRAWAL_REQUESTS_PER_PAYLOAD": 3, "MAX_CONSOLIDATION_REQUESTS_PER_PAYLOAD": 2,
 }
 
-var customOverrides = map[string]map[string]uint64{"custom-a": CustomA, "custom-b": CustomB, "custom-c": CustomC}
+// custom-d (state histories of C05 only): custom-c with a registry limit of 40 — for the one-byte-per-validator
+// participation lists ceil(40/32) = 2 chunks but floor(40/32) = 1, i.e. a tree depth that depends on rounding up.
+var CustomD = func() map[string]uint64 {
+	m := map[string]uint64{}
+	for k, v := range CustomC {
+		m[k] = v
+	}
+	m["VALIDATOR_REGISTRY_LIMIT"] = 40
+	return m
+}()
+
+var customOverrides = map[string]map[string]uint64{"custom-a": CustomA, "custom-b": CustomB, "custom-c": CustomC, "custom-d": CustomD}
 
 var PresetNames = []string{"mainnet", "minimal", "custom-a", "custom-b", "custom-c"}
 
@@ -88,7 +99,7 @@ func GetPreset(name string) *Preset {
 	switch name {
 	case "mainnet", "minimal":
 		cfg = refspec.Official(name)
-	case "custom-a", "custom-b", "custom-c":
+	case "custom-a", "custom-b", "custom-c", "custom-d":
 		fam = "custom"
 		cfg = refspec.Official("minimal").Clone()
 		cfg.Name = "custom"
